@@ -529,3 +529,14 @@ package bt
 //@   requires (< (len (. tx Outputs)) 2147483648)
 //@   ensures[C02.preimage_errors] (= (= err nil) (and (< inputNumber (len (. tx Inputs))) (> (len (. (at (. tx Inputs) inputNumber) previousTxID)) 0) (not (nil? (. (at (. tx Inputs) inputNumber) PreviousTxScript)))))
 //@   ensures[C02.preimage] (=> (= err nil) (= (bytes r0) (old (spec.preimage143 tx inputNumber sigHashFlag))))
+// the signature-hash strategy is a bound method value: which method, on which transaction
+//@ func bt.(*Tx).sigStrat
+//@   ensures[C02.strategy] (and (not (nil? result)) (= (fnrecv result) tx) (= (fnid result) (ite (= (mod (div shf 64) 2) 1) (fn-id "bt.(*Tx).CalcInputPreimage$bound") (fn-id "bt.(*Tx).CalcInputPreimageLegacy$bound"))))
+//@ axiom bt.defaultHex (and (= (len defaultHex) 32) (= (bytes defaultHex) (bcat (b1 1) (bzeros 31))))
+//@ func bt.(*Tx).CalcInputSignatureHash
+//@   bytes token
+//@   opt fn-dispatch bt.(*Tx).CalcInputPreimage$bound bt.(*Tx).CalcInputPreimageLegacy$bound
+//@   requires (spec.inputs_nonnil tx) (spec.out_scripts_nonnil tx) (spec.outputs_nonnil tx)
+//@   requires (< (len (. tx Outputs)) 2147483648) (< (len (. tx Inputs)) 4294967295)
+//@   ensures[C02.sighash_errors] (=> (= (mod (div sigHashFlag 64) 2) 1) (= (= err nil) (and (< inputNumber (len (. tx Inputs))) (> (len (. (at (. tx Inputs) inputNumber) previousTxID)) 0) (not (nil? (. (at (. tx Inputs) inputNumber) PreviousTxScript))))))
+//@   ensures[C02.sighash] (=> (and (= err nil) (= (mod (div sigHashFlag 64) 2) 1)) (= (bytes r0) (bsha256d (old (spec.preimage143 tx inputNumber sigHashFlag)))))
